@@ -146,6 +146,13 @@ def run_unit(unit, out, tier, seed):
     a_, b_ = atoms_[0], atoms_[1]
     pats = [(), (a_,), (_syn.neg(a_),), (a_, b_), (a_, _syn.neg(b_)), (_syn.neg(a_), b_), (_syn.neg(a_), _syn.neg(b_))]
     args += [(p_, n_) for n_ in negs for p_ in pats] + [((n_,), a_) for n_ in negs]
+    # ... and the same negated sentences one level down, as a disjunct of the conclusion beside a letter (a multi-way rule
+    # that drops one of its cases loses exactly the countermodels of that case)
+    deep = [(p_, _syn.op('Disjunction', n_, z_)) for n_ in negs for z_ in (a_, b_) for p_ in pats[1:5]]
+    if tier != 'thorough':
+        kk = 4 if S.base_name in ('K3W', 'K3WQ', 'B3E') else 2
+        deep = [x for i, x in enumerate(deep) if (i + seed) % kk == 0]
+    args += deep
     # negation towers beside a literal, in both arrival orders (closure rules only look at the arriving node)
     def tower(k, x):
         for _ in range(k):
